@@ -20,6 +20,7 @@ import (
 	"time"
 
 	"github.com/jrhy/mast"
+	s3p "github.com/jrhy/mast/persist/s3"
 )
 
 type flushEvent struct {
@@ -63,6 +64,9 @@ type ctlStore struct {
 	maxIn    int
 	nStarted int
 	nEnded   int
+	// cancelAt > 0: the context MakeRoot was called with is cancelled when the cancelAt-th Store call starts
+	cancelAt int
+	cancel   func()
 }
 
 func (s *ctlStore) NodeURLPrefix() string { return s.prefix }
@@ -82,6 +86,9 @@ func (s *ctlStore) Store(ctx context.Context, name string, b []byte) error {
 	*s.log = append(*s.log, flushEvent{Op: "ss", ID: s.id, N: name, HashOk: nodeName(b) == name})
 	atomic.AddInt64(s.nevents, 1)
 	s.nStarted++
+	if s.cancelAt > 0 && s.nStarted == s.cancelAt && s.cancel != nil {
+		s.cancel()
+	}
 	if s.free {
 		s.m[name] = append([]byte{}, b...)
 		s.nEnded++
@@ -218,14 +225,15 @@ func settle(n *int64) {
 }
 
 type flushScenario struct {
-	id      int
-	seed    int64
-	kind    string // "sched" | "big" | "foreign"
-	bf      uint
-	nkeys   int
-	premods int
-	mods    int
-	cache   string
+	id       int
+	seed     int64
+	kind     string // "sched" | "big" | "foreign"
+	bf       uint
+	nkeys    int
+	premods  int
+	mods     int
+	cache    string
+	cancelAt int
 }
 
 type flushRun struct {
@@ -415,11 +423,25 @@ func (r *flushRun) attempt(sched []string, attemptNo int, random bool, rng *rand
 		at   int // index of the ret event in the log
 	}
 	done := make(chan retT, 1)
+	cctx, cancel := context.WithCancel(ctx)
+	defer cancel()
+	r.st.mu.Lock()
+	r.st.cancel = cancel
+	if r.sc.kind == "cancel" && attemptNo == 1 {
+		r.st.cancelAt = r.sc.cancelAt
+		if r.sc.cancelAt == 0 {
+			cancel() // already cancelled when MakeRoot is called
+		}
+	} else {
+		r.st.cancelAt = -1
+	}
+	r.st.nStarted, r.st.nEnded = 0, 0
+	r.st.mu.Unlock()
 	go func() {
 		var root *mast.Root
 		res, msg := guard(func() error {
 			var err error
-			root, err = r.m.MakeRoot(ctx)
+			root, err = r.m.MakeRoot(cctx)
 			return err
 		})
 		// the return is logged at once, in sequence with the store events, with the number of writes still running
@@ -532,7 +554,7 @@ func runSchedule(sc flushScenario, sched []string, out *json.Encoder, rng *rand.
 	r.st.failProb = 0.03
 	r.add(flushEvent{Op: "fbegin", Kind: sc.kind, Sched: append([]string{}, sched...)})
 	var res string
-	enabled, res = r.attempt(sched, 1, sc.kind == "big", rng)
+	enabled, res = r.attempt(sched, 1, sc.kind == "big" || sc.kind == "cancel", rng)
 	for a := 2; a <= 3 && res == "err"; a++ {
 		// between a failed attempt and the retry the tree is sometimes modified again (the retry must then persist the current contents)
 		if rng.Intn(2) == 0 {
@@ -574,20 +596,46 @@ func exploreSchedules(sc flushScenario, out *json.Encoder, budget *int, rng *ran
 	dfs(nil)
 }
 
-// foreignCacheCase: one cache shared by two stores with different prefixes.
+// reachVia collects the names reachable from a link by loading through a Persist.
+func reachVia(p mast.Persist, nf string, name string, acc map[string]bool) {
+	if name == "" || acc[name] {
+		return
+	}
+	acc[name] = true
+	b, err := p.Load(ctx, name)
+	if err != nil {
+		return
+	}
+	rn, err := decodeNode(nf, b)
+	if err != nil {
+		return
+	}
+	for _, l := range rn.Links {
+		reachVia(p, nf, l, acc)
+	}
+}
+
+// foreignCacheCase: one cache shared by two stores with different prefixes (two harness stores, or two S3 persists on one bucket
+// that differ only in their object prefix). The second tree, with the same contents, must write all its nodes to its own store.
 func foreignCacheCase(id int, seed int64, out *json.Encoder) {
 	flushRunID++
 	id = flushRunID
 	rng := rand.New(rand.NewSource(seed))
 	cache := mast.NewNodeCache(4096)
-	s1 := newRecStore(fmt.Sprintf("first-%d", id))
-	s2 := newRecStore(fmt.Sprintf("second-%d", id))
+	var p1, p2 mast.Persist
+	if rng.Intn(2) == 0 {
+		p1, p2 = newRecStore(fmt.Sprintf("first-%d", id)), newRecStore(fmt.Sprintf("second-%d", id))
+	} else {
+		fs := &fakeS3{obj: map[string][]byte{}}
+		a := s3p.NewPersist(fs, "http://endpoint", "bucket", "a/")
+		b := s3p.NewPersist(fs, "http://endpoint", "bucket", "b/")
+		p1, p2 = &a, &b
+	}
 	nk := 20 + rng.Intn(60)
 	bf := []uint{2, 3, 4}[rng.Intn(3)]
 	kc := bigKeyCodec("int", nk, bf)
-	vc := newValCodec("int")
 	model := map[int]int{}
-	mk := func(st *recStore) *mast.Mast {
+	mk := func(st mast.Persist) *mast.Mast {
 		m, err := mast.NewRoot(&mast.CreateRemoteOptions{BranchFactor: bf}).LoadMast(ctx,
 			&mast.RemoteConfig{KeysLike: 0, ValuesLike: 0, StoreImmutablePartsWith: st, NodeCache: cache})
 		if err != nil {
@@ -595,7 +643,7 @@ func foreignCacheCase(id int, seed int64, out *json.Encoder) {
 		}
 		return m
 	}
-	m1, m2 := mk(s1), mk(s2)
+	m1, m2 := mk(p1), mk(p2)
 	for i := 0; i < nk; i++ {
 		k, v := 1+rng.Intn(nk), 1+rng.Intn(3)
 		model[k] = v
@@ -614,21 +662,17 @@ func foreignCacheCase(id int, seed int64, out *json.Encoder) {
 		return err
 	})
 	if e.Res == "ok" {
-		p := &projector{nf: "bin", kc: kc, vc: vc, st: s2}
-		acc := map[string]bool{}
-		p.reach(linkOf(root), acc)
-		e.Reach = len(acc)
-		// names reachable in the first store tell which nodes the version has
-		p1 := &projector{nf: "bin", kc: kc, vc: vc, st: s1}
+		// the first store holds the whole version: its names tell which nodes the second store must hold too
 		acc1 := map[string]bool{}
-		p1.reach(linkOf(root), acc1)
+		reachVia(p1, "bin", linkOf(root), acc1)
+		e.Reach = len(acc1)
 		for n := range acc1 {
-			if !s2.has(n) {
+			if _, err := p2.Load(ctx, n); err != nil {
 				e.Missing++
 			}
 		}
 		res, msg := guard(func() error {
-			m3, err := root.LoadMast(ctx, &mast.RemoteConfig{KeysLike: 0, ValuesLike: 0, StoreImmutablePartsWith: s2})
+			m3, err := root.LoadMast(ctx, &mast.RemoteConfig{KeysLike: 0, ValuesLike: 0, StoreImmutablePartsWith: p2})
 			if err != nil {
 				return err
 			}
@@ -665,6 +709,14 @@ func flushFamily(seed int64, n int, out *json.Encoder, budget int, scen int) {
 		id++
 		sc := flushScenario{id: id, seed: seed*104729 + int64(i), kind: "big", bf: []uint{2, 3, 4}[rng.Intn(3)], nkeys: 150 + rng.Intn(300),
 			premods: []int{0, 200}[rng.Intn(2)], mods: 120 + rng.Intn(200), cache: []string{"none", "large"}[rng.Intn(2)]}
+		runSchedule(sc, nil, out, rng)
+	}
+	// 2b. the caller's context ends while writes are still queued (the stores here ignore the context): whatever MakeRoot
+	// reports, a success must be complete
+	for i := 0; i < n; i++ {
+		id++
+		sc := flushScenario{id: id, seed: seed*611953 + int64(i), kind: "cancel", bf: []uint{2, 3, 4}[rng.Intn(3)], nkeys: 40 + rng.Intn(100),
+			premods: []int{0, 60}[rng.Intn(2)], mods: 30 + rng.Intn(80), cache: []string{"none", "large"}[rng.Intn(2)], cancelAt: rng.Intn(12)}
 		runSchedule(sc, nil, out, rng)
 	}
 	// 3. a cache shared between two stores
